@@ -167,8 +167,7 @@ def rp : Params := { voteRate := 200, depositRate := 100, minDeposit := 1000, po
 def rs0 : St :=
   { accts := fun a =>
       if a = 20 then { isCand := 1, deposit := some 1000, votes := 10, income := 20 }
-      else if a = 21 then { bal := 150 } else if a = 22 then { bal := 500 } else if a = 3 then { income := 4 } else {},
-    gp := 100000000 }
+      else if a = 21 then { bal := 150 } else if a = 22 then { bal := 500 } else if a = 3 then { income := 4 } else {} }
 def rtx1 : Tx :=
   { id := 1, sender := 22, payer := 22, gasLimit := 21000, gasPrice := 0, txType := 0, msgLen := 0, nzData := 0,
     zData := 0, kind := .transfer 21 100, fromSigners := some [22], payerSigners := some [] }
@@ -179,8 +178,8 @@ def rctx : Ctx := { p := rp, miner := 3, height := 7 }
 def rU : List Nat := [1, 3, 4, 20, 21, 22]
 
 theorem tally_refuted :
-    let s' := (mineBlock rctx rs0 [rtx1, rtx2] rU).1
-    (mineBlock rctx rs0 [rtx1, rtx2] rU).2.1 = [(1, 21000), (2, 35000)] ∧
+    let s' := (mineBlock rctx rs0 100000000 [rtx1, rtx2] rU).1
+    (mineBlock rctx rs0 100000000 [rtx1, rtx2] rU).2.1 = [(1, 21000), (2, 35000)] ∧
     (s'.accts 21).voteFor = 20 ∧ (s'.accts 21).bal = 250 ∧
     (s'.accts 20).votes = 12 ∧
     1000 / rp.depositRate + voterSum rp.voteRate (fun v => (s'.accts v).voteFor) (fun v => (s'.accts v).bal) 20 rU = 11 := by
